@@ -256,6 +256,12 @@ def make_obj_class(versions=False):
         def _exec(self, cid, variant):
             pos = self.raftLastApplied + 1
             self.hist.append((pos, cid, variant))
+            if self._sim is not None and self._sim.cluster.cfg.get('pad'):
+                # ballast that is a function of the last executed command only (so equal histories still give equal
+                # snapshot bytes): incompressible, 0..224 bytes - a newer snapshot is often SHORTER than an older one
+                import hashlib as _h, zlib as _z
+                k = _z.crc32(str(cid).encode()) % 8
+                self.pad = b''.join(_h.sha256(('%s/%d' % (cid, i)).encode()).digest() for i in range(k))
             return len(self.hist)
 
         @replicated
@@ -433,6 +439,8 @@ class Cluster(object):
                 o = cluster.nodes[nid].obj
                 state = {'hist': list(getattr(o, 'hist', [])),
                          '_SyncObj__enabledCodeVersion': int(getattr(o, '_SyncObj__enabledCodeVersion'))}
+                if cluster.cfg.get('pad'):
+                    state['pad'] = getattr(o, 'pad', b'')
                 import pysyncobj.serializer as S_
                 with S_.open(fileName, 'wb') as f:
                     with S_.gzip.GzipFile(fileobj=f, mode='wb') as g:
@@ -445,6 +453,8 @@ class Cluster(object):
                         d = sopickle.load(g)
                 o = cluster.nodes[nid].obj
                 o.hist = list(d[0]['hist'])
+                if 'pad' in d[0]:
+                    o.pad = d[0]['pad']
                 return tuple(d[1:])
             kw['serializer'] = user_serializer
             kw['deserializer'] = user_deserializer
@@ -1007,7 +1017,17 @@ class Cluster(object):
         try:
             with gzip.GzipFile(fileobj=io.BytesIO(raw)) as gz:
                 d = sopickle.load(gz)
-            selfdata = d[0][0] if isinstance(d[0], list) else d[0]
+                # a complete snapshot is the whole byte string: one gzip member holding one pickle.  The library's own
+                # loader stops at the pickle's STOP opcode, so bytes of another (abandoned) transfer behind it go
+                # unnoticed there - here they make the blob a torn one ('garbage' for TransferIntegrity).
+                if gz.read(1) != b'':
+                    raise ValueError('bytes after the pickled snapshot')
+            import zlib
+            zd = zlib.decompressobj(31)
+            zd.decompress(raw)
+            if not zd.eof or zd.unused_data != b'':
+                raise ValueError('bytes after the gzip member')
+            selfdata =d[0][0] if isinstance(d[0], list) else d[0]
             seen_at.nsnap += 1
             info = {'has': True, 'ok': True, 'sid': hashlib.sha1(raw).hexdigest()[:10], 'size': len(raw),
                     'last': self.abs_entry(d[1]), 'prev': self.abs_entry(d[2]),
